@@ -838,6 +838,14 @@ def build_T15i(tree):
     texts.append(lean_table('srForwarded', 'List (String × String × String)',
                             ['(' + ', '.join(q(x) for x in row) + ')' for row in fwd_rows],
                             doc='(class, keyword, expression) of the `super().__init__(...)` call of the three public document classes'))
+    items_w = [(t, c, v) for kind, t, c, v in sr_eff if kind == 'item']
+    texts.append(lean_table('srInitItemWrites', 'List (String × String × String)',
+                            ['(' + ', '.join(q(x) for x in row) + ')' for row in items_w],
+                            doc='`_SR.__init__`: (target, path condition, value) of every item store (`self[tag] = …`)'))
+    locals_w = [(t, c, v) for kind, t, c, v in sr_eff if kind == 'name' and t in ('content_copy', 'content_item', 'tag', 'value')]
+    texts.append(lean_table('srInitContentLocals', 'List (String × String × String)',
+                            ['(' + ', '.join(q(x) for x in row) + ')' for row in locals_w],
+                            doc='`_SR.__init__`: where the locals that carry the content tree get their values'))
     opts = [p for p in sr_params if p not in ('self', 'kwargs')]
     texts.append(lean_table('srOptionNames', 'List String', [q(x) for x in opts], doc='parameters of `_SR.__init__`'))
     for attr, param, nm in (('CompletionFlag', 'is_complete', 'srCompletionFlag'), ('PreliminaryFlag', 'is_final', 'srPreliminaryFlag')):
